@@ -59,7 +59,9 @@ Inductive tag :=
 Inductive c15case :=
 | Lst (async : bool) (own : str) (init : mgr) (items : list (tag * item))
       (obsA : list (list eff)) (finA : mgr)     (* run on all items: [before first] ++ per item ++ [after last] *)
-      (obsB : list (list eff)) (finB : mgr)     (* run with the TBad items removed *)
+      (obsB : option (list (list eff))) (finB : option mgr)
+                                                (* run with the TBad items removed; None = the harness found it
+                                                   textually identical to run A without the TBad segments / to finA *)
 | ApiMsg (model observed : pv)                  (* message built by the API method vs. the transcribed literal *)
 | RL (channel : str) (script : list outcome) (obs : list revent)
 | RP (script : list outcome) (obs : list pevent).
@@ -140,6 +142,13 @@ Fixpoint has_counter_class (own : pv) (async : bool) (s : mgr) (items : list (ta
       has_counter_class own async (fst (step own async s it)) rest
   end.
 
+(* the defect behind signature c15-callback-id0-pops-counter, recognised on the observed final state:
+   some callbacks[sid] has lost key 0, the id generator (it is created with the dict and nothing may
+   ever delete it) *)
+Definition counter_lost (fin : mgr) : bool :=
+  existsb (fun p : pv * list (pv * cbslot) =>
+             match aget (PInt 0%Z) (snd p) with Some (Counter _) => false | _ => true end) (cbs fin).
+
 Definition lst_corr (async : bool) (own : pv) (init : mgr) (its : list item)
            (obs : list (list eff)) (fin : mgr) : bool :=
   match thread own async init its, run own async init its with
@@ -158,19 +167,29 @@ Definition lst_prop (own : pv) (items : list (tag * item)) (obsA obsB : list (li
   chk_ignored own items segsA &&
   chk_inert items segsA segsB finA finB.
 
+(* run A's observation with the segments of the TBad items removed *)
+Definition without_bad (items : list (tag * item)) (obsA : list (list eff)) : list (list eff) :=
+  hd [] obsA :: map snd (filter (fun p : tag * item * list eff => negb (is_bad (fst (fst p))))
+                                (combine items (middle obsA))) ++ [last obsA []].
+Definition obsB_of items obsA (obsB : option (list (list eff))) :=
+  match obsB with Some o => o | None => without_bad items obsA end.
+Definition finB_of (finA : mgr) (finB : option mgr) := match finB with Some f => f | None => finA end.
+
 Definition bits (corr prop : bool) : nat :=
   ((if corr then 0 else 1) + (if prop then 0 else 2))%nat.
 
 Definition c15_eval (c : c15case) : nat :=
   match c with
-  | Lst async own init items obsA finA obsB finB =>
+  | Lst async own init items obsA finA obsB0 finB0 =>
       let o := PStr own in
+      let obsB := obsB_of items obsA obsB0 in
+      let finB := finB_of finA finB0 in
       let its := map snd items in
       let itsB := map snd (filter (fun p => negb (is_bad (fst p))) items) in
       (bits (lst_corr async o init its obsA finA && lst_corr async o init itsB obsB finB)
             (lst_prop o items obsA obsB finA finB)
        + (if tags_justified o async init items then 0 else 4)
-       + (if has_counter_class o async init items then 8 else 0))%nat
+       + (if counter_lost finA then 8 else 0))%nat
   | ApiMsg model observed => bits (pv_eqb model observed) true
   | RL channel script obs =>
       bits (list_eqb revent_eqb (listen_run channel script) obs)
@@ -187,18 +206,22 @@ Definition c15_eval (c : c15case) : nat :=
 
 (* shown by --replay: the clauses one by one
    [model=run A; model=run B; one segment per item; sentinels delivered; foreign acks and own echoes
-    ignored; tagged messages ineffective; tags justified; no counter-class message] *)
+    ignored; tagged messages ineffective; tags justified; no id generator lost (final state);
+    no counter-class message in the scenario] *)
 Definition c15_clauses (c : c15case) : list bool :=
   match c with
-  | Lst async own init items obsA finA obsB finB =>
+  | Lst async own init items obsA finA obsB0 finB0 =>
       let o := PStr own in
+      let obsB := obsB_of items obsA obsB0 in
+      let finB := finB_of finA finB0 in
       let its := map snd items in
       let itsB := map snd (filter (fun p => negb (is_bad (fst p))) items) in
       [lst_corr async o init its obsA finA; lst_corr async o init itsB obsB finB;
        Nat.eqb (List.length (middle obsA)) (List.length items);
        chk_sentinels items (middle obsA); chk_ignored o items (middle obsA);
        chk_inert items (middle obsA) (middle obsB) finA finB;
-       tags_justified o async init items; negb (has_counter_class o async init items)]
+       tags_justified o async init items; negb (counter_lost finA);
+       negb (has_counter_class o async init items)]
   | _ => []
   end.
 
